@@ -16,7 +16,8 @@ LEVEL = ("Static structural conditions for both Zarr backends: flush, finalize a
          "exactly at full_at, total_pushed = current_chunk * full_at + len, copy_as_chunk cannot modify the buffer (R5). Chunk-index arithmetic against "
          "all sizes and the store contents after a crash are not decided."
          " Added: copy_as_chunk is a snapshot - no interior mutability in SampleBuffer, None only for an empty buffer (R5)."
-         " Added (round 5): event arrays are trimmed to maxima, never minima (R6); finalisation keeps the events of the phase the chain ended in (R7 = C14-R13); no Zarr backend drops the Result of a chunk write (R8 = C13-R6 analysis); warm-up arrays are num_tune long, sampling arrays num_draws long (R9).")
+         " Added (round 5): event arrays are trimmed to maxima, never minima (R6); finalisation keeps the events of the phase the chain ended in (R7 = C14-R13); no Zarr backend drops the Result of a chunk write (R8 = C13-R6 analysis); warm-up arrays are num_tune long, sampling arrays num_draws long (R9)."
+         " Added (round 6): only finalisation empties a chain's trace slot (R10 = C11-R13); set_shape is called from TraceStorage::finalize only (R11); chunk grid and buffer length are one expression (R12).")
 EXPLANATION = ("MIR loops over the buffer-map fields with the snapshot / reset call and the indexed array family on each side of the warm-up flag; sibling "
                "agreement with push_draw / push_param; symbolic evaluation (polynomials) of the subset start / shape expressions in HIR; field-writer inventory.")
 TRUSTED = ["rustc nightly MIR/HIR", "nutsfacts extractor", "rules/c15.py", "zarrs: store_chunk / store_chunk_subset / store_array_subset write what they are given",
